@@ -5,7 +5,7 @@
    Not proved for unbounded histories (bounded kernel sweep + oracle): the entries of the boundary
    operators against faces(), cofaces as the inverse of faces, basis = points of the closure, d.d = 0. *)
 From Coq Require Import String ZArith Bool Arith List.
-From SV Require Import Names NamesFacts ListFacts Rep Fresh Complex Atomic RepInv Reach Homology Filtration Gen World Small Sweeps Shapes ShapesReach Incidence Closed ClosedReach Duality BasisInv.
+From SV Require Import Names NamesFacts ListFacts Rep Fresh Complex Atomic RepInv Reach Homology Filtration Gen World Small Sweeps Shapes ShapesReach Incidence Closed ClosedReach Duality BasisInv VInv DD.
 Import ListNotations.
 
 (* indexOf is the simplex's position in the listing of its order, orderOf that order *)
@@ -110,3 +110,27 @@ Theorem C03_basis_is_the_points_of_the_closure :
   forall p, In p (basisOf r t) <-> fchain r k t p.
 Proof. exact basis_is_closure_points. Qed.
 Print Assumptions C03_basis_is_the_points_of_the_closure.
+
+(* CONSEQUENTLY, every complex that meets the vertex-set reading (C01_vertex_set_reading_at_every_point):
+   consecutive boundary operators multiply to zero mod 2 -- entry (i, j) of d_{k+1} . d_{k+2}, the mod-2
+   sum over the (k+1)-simplices u of d_{k+1}[i,u] * d_{k+2}[u,j], is 0 (a (k+2)-simplex reaches a
+   k-simplex through no face or through exactly two: DD.two_ways_down) *)
+Theorem C03_consecutive_boundaries_multiply_to_zero :
+  forall r, vinv r -> forall k i j,
+  i < length (simplicesOfOrder r k) -> j < length (simplicesOfOrder r (S (S k))) ->
+  parity (map (fun u => mentry (boundaryOperator r (S k)) i u && mentry (boundaryOperator r (S (S k))) u j)
+              (seq 0 (length (simplicesOfOrder r (S k))))) = false.
+Proof. exact dd_zero. Qed.
+Print Assumptions C03_consecutive_boundaries_multiply_to_zero.
+(* boundary() of a chain is the mod-2 sum of its members' faces: no repeats, and w is listed exactly
+   when it is a face of an odd number of members *)
+Theorem C03_boundary_is_mod2_sum :
+  forall r, vinv r -> forall ss b, boundary r ss = Ok b ->
+  NoDup b /\ forall w, In w b <-> parity (map (fun s => memn w (faces r s)) ss) = true.
+Proof. exact boundary_is_mod2_sum. Qed.
+Print Assumptions C03_boundary_is_mod2_sum.
+(* and the boundary of a boundary is empty *)
+Theorem C03_boundary_of_boundary_is_empty :
+  forall r, vinv r -> forall ss b, boundary r ss = Ok b -> boundary r b = Ok nil.
+Proof. exact boundary_of_boundary. Qed.
+Print Assumptions C03_boundary_of_boundary_is_empty.
